@@ -155,7 +155,9 @@ class JSONPointer:
                     raise JSONPointerIndexError("index out of range") from None
                 # Handle non-standard index pointer.
                 if isinstance(key, str) and key.startswith("#"):
-                    _index = int(key[1:])
+                    _index = self._index(key[1:])
+                    if not isinstance(_index, int):
+                        raise JSONPointerTypeError(f"{key}: {err}") from err
                     if _index >= len(obj):
                         raise JSONPointerIndexError(
                             f"index out of range: {_index}"
